@@ -691,8 +691,24 @@ def names(cad):
 role_names = names
 
 
-def _role_of_type(ty):
+def _tag_struct(cad, h):
+    """a private struct of the client module with exactly an Option<String> (key) and a String (value): a default tag by
+    another name -> (key field, value field)"""
+    a = cad.adts.get(h) if cad is not None else None
+    if not a or a['kind'] != 'Struct' or not h.startswith('cadence::client::'):
+        return None
+    fs = a['variants'][0]['fields']
+    k = [f['name'] for f in fs if f['ty'].replace(' ', '') == 'core::option::Option<alloc::string::String>']
+    v = [f['name'] for f in fs if f['ty'].replace(' ', '') == 'alloc::string::String']
+    return (k[0], v[0]) if len(fs) == 2 and len(k) == 1 and len(v) == 1 else None
+
+
+def _role_of_type(ty, cad=None):
     ty = ty.replace(' ', '')
+    if ty in ('alloc::boxed::Box<str>', 'alloc::sync::Arc<str>'):
+        return 'prefix'
+    if ty.startswith('alloc::vec::Vec<') and _tag_struct(cad, type_head(ty[len('alloc::vec::Vec<'):-1])):
+        return 'tags'
     if 'dyncadence::sinks::core::MetricSink' in ty:
         return 'sink'
     if 'dyncore::ops::function::Fn(cadence::types::MetricError)' in ty:
@@ -713,7 +729,7 @@ def client_field_path(cad, role, adt='cadence::client::StatsdClient', depth=0):
     of the client module that groups configuration."""
     fs = adt_fields(cad, adt) or []
     for f in fs:
-        if _role_of_type(f['ty']) == role:
+        if _role_of_type(f['ty'], cad) == role:
             return (f['name'],)
     if depth < 2:
         for f in fs:
